@@ -44,6 +44,10 @@ CHECKS = {
    technique="crash-point and torn-write enumeration on the real write path: the data directory is photographed from the single blocking-pool thread between every two file operations of every workload up to a depth; every photograph, every subset of the file writes queued between two photographs and every torn length of each of them is materialised as a crash image, and the real server is started on every image",
    text="Workloads (sends that roll segments over, flushes, consumer-offset stores, journalled commands, time- and size-based retention, purge) run under wait / no-wait confirmation x fsync x index cache. On every crash image the server must start; the partition must read as a gap-free, duplicate-free run of the accepted messages holding at least everything whose write had completed before the crash point; two further sends must continue at the next offset and read back; a further clean restart must show the same log; the stored consumer offset must be an old or a new value. A torn journal tail may be reported by a start-up error.",
    note="Trusted base: photographs are taken by a closure in the same FIFO queue as the server's file operations (max_blocking_threads = 1), so each shows a state between two operations; creations/removals are awaited by the server and therefore ordered, queued writes are treated as unordered. Process-death model only: no reordering of unsynced pages after power loss; the interval in which the server has answered while tokio still holds the bytes is not charged (DESIGN.md §7)."),
+ "C20": dict(cat="model_checking", engine="E-seq/sdk", design="§5 C20",
+   technique="explicit-state exploration by re-execution of the real IggyProducer / IggyConsumer over loopback TCP against the in-process server: producer settings x all histories of send calls, consumer settings x all histories of produce / next() / drop-and-re-create / member joins-leaves up to a depth; placement, exactly-once-in-order, commit-bound and resume oracles",
+   text="Producer: batch size x send interval x partitioning (default, partition id, messages key, custom partitioner) x retries x client-side encryption; every history of send, send_one, send_with_partitioning, send_to (other topic, with and without partitioning) and empty sends up to the depth; after every call all partitions of both topics are read back: every batch whole, contiguous, in the addressed topic and partition, in submission order, nothing lost or duplicated. Consumer: plain consumer, group with one member, group with a second member joining and leaving x strategy next / offset x batch size x seven commit modes (manual, when polling, each, every n-th, all, interval-or-each, disabled); every history of produce, next(), drop-and-re-create and membership change up to the depth: per incarnation and partition the yielded offsets are consecutive (gaps only over committed offsets), a new incarnation starts right after the committed offset, payloads are the produced ones, the committed offset never exceeds the partition's content nor, in modes that commit on consumption, the last message yielded.",
+   note="Trusted base: next() is called only when the server holds a message the consumer is owed (so it cannot block; a consumer that keeps polling without yielding is detected by counting readings of the owned clock, not by wall time); committed offsets are read on the consumer's own connection, which answers in request order. Timer-driven commits, strategies first/last/timestamp, QUIC/HTTP transports and reconnection are not explored. Open known findings: offset strategy in a group member that owns several partitions."),
  "C11": dict(cat="model_checking", engine="E-sched + E-enum/journal", design="§5 C11",
    technique="stateless exploration of task interleavings of the real binary handlers under a controlled scheduler (deviation-bounded, all schedules within the bound), exhaustive fault subsets of failing journal appends, and exhaustive mutation families of valid journals against the real loader",
    text="(a) The real purge/create/update handlers are entered through the public dispatcher as gated tasks (shared-lock and exclusive-lock handlers mixed); every schedule within the deviation bound is executed. (b) Every subset of failing journal appends in a sequential history of four commands, and a failing append inside a concurrent scenario. After every execution the journal must load with consecutive indices, contain exactly the acknowledged commands, and the server must restart from it. (c) A valid journal (plain and encrypted) is mutated exhaustively - every byte x 8 bit flips (thorough: 255 values), every truncation length, every entry removed / duplicated / re-appended, every transposition, appended garbage - and the loader must answer with an error or a prefix of the true history, never another history, never a panic, never a multi-GiB allocation.",
@@ -125,6 +129,8 @@ def main():
              "kind_free_text": "explicit-state tree search over operation histories; state = history, rebuilt by re-executing the real server on a fresh copy of a journalled template directory; one child OS process per job"},
             {"name": "E-sched", "path": "/verif/harness/src/sched.rs", "serves_properties": ["C11", "C12"],
              "kind_free_text": "controlled scheduler over the real async code: logical tasks wrapped in gates, one poll per grant, single blocking-pool thread parked during each gated poll and used as a barrier between decision points; deviation-bounded enumeration of all schedules by re-execution"},
+            {"name": "E-seq/sdk", "path": "/verif/harness/src/props/sdkp.rs", "serves_properties": ["C20"],
+             "kind_free_text": "explicit-state tree search over histories of SDK producer / consumer calls; every history re-executed with the real high-level clients over loopback TCP against a fresh in-process server"},
             {"name": "E-crash", "path": "/verif/harness/src/props/crashp.rs", "serves_properties": ["C04"],
              "kind_free_text": "crash-image enumeration: a monitor closure in the FIFO queue of the single blocking-pool thread photographs the data directory between every two file operations of the real server; images = photographs + subsets of queued writes + torn lengths; the real server is restarted on each image"},
             {"name": "E-seq/groups", "path": "/verif/harness/src/props/grpp.rs", "serves_properties": ["C08"],
